@@ -28,12 +28,12 @@
 
 // ------------------------------------------------------------------ messages
 #define MSG_MAGIC 0x5a18c18a5a18c18aULL
-#define MAXSEQ 8192
+#define MAXSEQ 20000
 #define SENTINEL 0x7fff0000u
 
 typedef struct {
 	nng_msg *m;
-	uint8_t  st; // 0 unused, 1 handed to the library, 2 back / freed by us, 3 arrived at a full lossy queue
+	uint8_t  st[2]; // per lane (receiver): 0 unused, 1 handed to the library, 2 back / freed by us, 3 arrived at a full lossy queue
 } mrec;
 static mrec     reg[MAXSEQ];
 static uint32_t nextseq = 1;
@@ -66,7 +66,7 @@ mk_msg(uint32_t *seqp)
 	}
 	nng_msg *m  = mk_msg_seq(seq);
 	reg[seq].m  = m;
-	reg[seq].st = 1;
+	reg[seq].st[0] = reg[seq].st[1] = 1;
 	*seqp       = seq;
 	return m;
 }
@@ -92,7 +92,7 @@ chk_msg(nng_msg *m, uint32_t *seqp)
 }
 
 // ------------------------------------------------------------------ candidate sets
-#define QMAX 40
+#define QMAX 72
 #define MAXC 256
 typedef struct {
 	int      n;
@@ -217,29 +217,73 @@ cs_evict_append(cset *cs, uint32_t seq, int cap)
 	memcpy(cs->c, out.c, sizeof(dq) * (size_t) out.n);
 }
 
-// the outcomes of a resize that the property allows
+// the outcomes of a resize that the property allows; the first 'skip'
+// elements are not in the queue (they sit in the pipe's send slot)
 static void
-cs_resize(cset *cs, int newcap, int slot)
+cs_resize_skip(cset *cs, int newcap, int slot, int skip)
 {
 	cset out;
 	out.n = 0;
 	for (int i = 0; i < cs->n; i++) {
-		const dq *q = &cs->c[i];
-		if (q->n <= newcap) {
+		const dq *q  = &cs->c[i];
+		int       sk = q->n < skip ? q->n : skip;
+		int       n  = q->n - sk;
+		if (n <= newcap) {
 			cs_add(&out, q);
 			continue;
 		}
-		for (int k = newcap; k <= newcap + slot && k <= q->n; k++) {
+		for (int k = newcap; k <= newcap + slot && k <= n; k++) {
 			dq t;
-			t.n = k;
-			memcpy(t.s, q->s, sizeof(uint32_t) * (size_t) k); // oldest kept
+			t.n = sk + k;
+			memcpy(t.s, q->s, sizeof(uint32_t) * (size_t) (sk + k)); // oldest kept
 			cs_add(&out, &t);
-			memcpy(t.s, q->s + (q->n - k), sizeof(uint32_t) * (size_t) k); // newest kept
+			memcpy(t.s + sk, q->s + sk + (n - k), sizeof(uint32_t) * (size_t) k); // newest kept
 			cs_add(&out, &t);
 		}
 	}
 	cs->n = out.n;
 	memcpy(cs->c, out.c, sizeof(dq) * (size_t) out.n);
+}
+
+static void
+cs_resize(cset *cs, int newcap, int slot)
+{
+	cs_resize_skip(cs, newcap, slot, 0);
+}
+
+// One message offered to a queue that sits behind 'skip' in-flight cells.
+// pol 0: refused when full (accepted tells what the library did),
+// 1: dropped when full, 2: the oldest queued message makes room.
+// Returns the number of candidates left.
+static int
+cs_offer(cset *cs, uint32_t seq, int cap, int skip, int pol, bool accepted)
+{
+	cset out;
+	out.n = 0;
+	for (int i = 0; i < cs->n; i++) {
+		dq   t    = cs->c[i];
+		bool room = t.n < skip || t.n - skip < cap;
+		if (pol == 0) {
+			if (room != accepted) {
+				continue;
+			}
+			if (accepted) {
+				t.s[t.n++] = seq;
+			}
+		} else if (room) {
+			t.s[t.n++] = seq;
+		} else if (pol == 2 && t.n > skip) {
+			memmove(t.s + skip, t.s + skip + 1, sizeof(uint32_t) * (size_t) (t.n - skip - 1));
+			t.s[t.n - 1] = seq;
+		}
+		if (t.n >= QMAX) {
+			vf_harness_fail("model queue overflow");
+		}
+		cs_add(&out, &t);
+	}
+	cs->n = out.n;
+	memcpy(cs->c, out.c, sizeof(dq) * (size_t) out.n);
+	return out.n;
 }
 
 // ------------------------------------------------------------------ model + verdicts
@@ -251,6 +295,7 @@ typedef struct {
 	bool resized;  // a resize that was allowed to drop happened
 	bool dead;     // a violation was reported in this case
 	bool ptrcheck; // messages must come back as the same object
+	int  lane;     // which receiver of a fan-out this model follows (registry column)
 	long v0;
 	char hist[320];
 	int  hl;
@@ -371,15 +416,15 @@ m_recv(model *M, nng_msg *m)
 		nng_msg_free(m);
 		return;
 	}
-	if (seq >= MAXSEQ || reg[seq].st == 0) {
+	if (seq >= MAXSEQ || reg[seq].st[M->lane] == 0) {
 		m_viol(M, "corrupt", "received message with unknown sequence number %u", seq);
 		return;
 	}
-	if (reg[seq].st == 2) {
+	if (reg[seq].st[M->lane] == 2) {
 		m_viol(M, "duplicate", "message %u delivered twice", seq);
 		return;
 	}
-	if (reg[seq].st == 3) {
+	if (reg[seq].st[M->lane] == 3) {
 		m_viol(M, "bound/kept-beyond-depth", "message %u was delivered although the queue was full (depth %d) when it arrived", seq, M->cap);
 		return;
 	}
@@ -398,7 +443,7 @@ m_recv(model *M, nng_msg *m)
 			m_viol(M, cl, "got message %u, legal queue contents: %s", seq, want);
 		}
 	}
-	reg[seq].st = 2;
+	reg[seq].st[M->lane] = 2;
 	nng_msg_free(m);
 }
 
@@ -508,7 +553,7 @@ l_put(lctx *L)
 		l_check(L);
 		return true;
 	}
-	reg[seq].st = 2;
+	reg[seq].st[0] = 2;
 	nng_msg_free(m);
 	if (rv != NNG_EAGAIN) {
 		m_viol(M, "put-error", "nni_lmq_put returned %d", rv);
@@ -601,13 +646,14 @@ l_fini(lctx *L, bool drain)
 	model *M = &L->M;
 	if (drain && !m_dead(M)) {
 		int guard = 0;
-		while (!m_dead(M) && l_put(L) && ++guard < QMAX) {
+		bool big = false;
+		while (!m_dead(M) && !(big = cs_maxlen(&M->cs) >= QMAX - 8) && l_put(L) && ++guard < QMAX) {
 		}
-		if (!m_dead(M) && cs_maxlen(&M->cs) != M->cap && guard < QMAX) {
+		if (!m_dead(M) && !big && cs_maxlen(&M->cs) != M->cap && guard < QMAX) {
 			m_viol(M, "capacity/put-refused-with-room", "filled only to %d of %d", cs_maxlen(&M->cs), M->cap);
 		}
 		guard = 0;
-		while (!m_dead(M) && l_get(L) && ++guard < QMAX) {
+		while (!m_dead(M) && l_get(L) && ++guard < 2 * QMAX) {
 		}
 	}
 	vf_stat("ops", L->ops);
@@ -669,6 +715,63 @@ run_lmq_exhaustive(void)
 								vf_watchdog(120);
 							}
 						}
+					}
+				}
+			}
+		}
+	}
+}
+
+// depths around the powers of two the ring is rounded to, and the largest
+// the option accepts: 0 lmq, 1 msgq
+static const int big_a[]  = { 31, 32, 33, 64, 1000, 8192 };
+static const int big_b[]  = { 16, 31, 32, 33, 64, 65, 1000, 1024, 8192 };
+static const int big_c[]  = { 1, 32, 8192 };
+#define NBIG_A 6
+#define NBIG_B 9
+#define NBIG_C 3
+
+static void
+run_lmq_big(long base)
+{
+	long idx = base;
+	for (int ai = 0; ai < NBIG_A; ai++) {
+		int cap   = big_a[ai];
+		int alloc = 2;
+		while (alloc < cap) {
+			alloc *= 2;
+		}
+		for (int oi = 0; oi < 3; oi++) {
+			int off = oi == 0 ? 0 : oi == 1 ? cap - 3 : alloc - 1;
+			for (int fi = 0; fi < 2; fi++) {
+				int fill = cap <= 64 ? cap - 1 + fi : 20 + 20 * fi;
+				for (int bi = 0; bi < NBIG_B; bi++) {
+					for (int ci = 0; ci < NBIG_C; ci++, idx++) {
+						if ((idx % vf_nshards) != vf_shard || !vf_want_case(idx)) {
+							continue;
+						}
+						lctx L;
+						vf_case_begin(idx, "lmq big cap=%d off=%d fill=%d resize=%d get put put resize=%d", cap, off, fill, big_b[bi], big_c[ci]);
+						l_init(&L, cap);
+						for (int i = 0; i < off; i++) {
+							l_put(&L);
+							l_get(&L);
+						}
+						for (int i = 0; i < fill; i++) {
+							l_put(&L);
+						}
+						l_resize(&L, big_b[bi]);
+						l_get(&L);
+						l_put(&L);
+						l_put(&L);
+						l_resize(&L, big_c[ci]);
+						if (!L.M.dead) {
+							vf_class("lmq/big/cap%d->%d->%d/%s", cap, big_b[bi], big_c[ci], off + fill > alloc ? "wrapped" : "flat");
+							vf_stat("big_depth_cases", 1);
+						}
+						l_fini(&L, true);
+						vf_stat("cases", 1);
+						vf_watchdog(120);
 					}
 				}
 			}
@@ -753,7 +856,7 @@ typedef struct {
 	nni_aio  *pool[2 * NWAIT];
 	int       npool;
 	long      ops;
-	long      blocked_puts, blocked_gets, handoffs;
+	long      blocked_puts, blocked_gets, handoffs, cancels;
 } qctx;
 
 static nni_aio *
@@ -873,7 +976,7 @@ q_tryput(qctx *Q)
 		}
 		m_accept(M, seq);
 	} else {
-		reg[seq].st = 2;
+		reg[seq].st[0] = 2;
 		nng_msg_free(m);
 		if (rv != NNG_EAGAIN) {
 			m_viol(M, "put-error", "nni_msgq_tryput returned %d", rv);
@@ -947,6 +1050,54 @@ q_aget(qctx *Q)
 	if (!m_dead(M) && Q->ngetters == n) {
 		Q->blocked_gets++;
 	}
+}
+
+// cancel a blocked put or get: it alone fails, its message stays with it,
+// nobody else is disturbed
+static void
+q_cancel(qctx *Q, bool putter, int which)
+{
+	model *M = &Q->M;
+	if (m_dead(M)) {
+		return;
+	}
+	int *n = putter ? &Q->nputters : &Q->ngetters;
+	if (*n == 0) {
+		return;
+	}
+	waiter *arr = putter ? Q->putter : Q->getter;
+	which %= *n;
+	waiter w = arr[which];
+	nni_aio_abort(w.aio, NNG_ECANCELED);
+	Q->ops++;
+	m_log(M, "cancel-%s%u", putter ? "put" : "get", w.seq);
+	if (m_dead(M)) {
+		return;
+	}
+	if (nni_aio_busy(w.aio)) {
+		m_viol(M, "cancel/ignored", "aborting a blocked %s did not complete it", putter ? "put" : "get");
+		return;
+	}
+	int rv = nni_aio_result(w.aio);
+	if (rv != NNG_ECANCELED) {
+		m_viol(M, "cancel/result", "aborted %s finished with %d", putter ? "put" : "get", rv);
+		return;
+	}
+	nng_msg *m = nni_aio_get_msg(w.aio);
+	if (putter) {
+		if (m != reg[w.seq].m) {
+			m_viol(M, "cancel/message", "cancelled put of %u no longer owns its message", w.seq);
+			return;
+		}
+		nni_aio_set_msg(w.aio, NULL);
+		reg[w.seq].st[0] = 2;
+		nng_msg_free(m);
+	}
+	memmove(&arr[which], &arr[which + 1], sizeof(waiter) * (size_t) (*n - which - 1));
+	(*n)--;
+	Q->pool[Q->npool++] = w.aio;
+	Q->cancels++;
+	q_settle(Q);
 }
 
 static void
@@ -1037,10 +1188,10 @@ q_fini(qctx *Q, bool drain)
 	if (drain && !m_dead(M)) {
 		// fill to the brim: exactly cap more are accepted in total
 		int guard = 0;
-		while (!m_dead(M) && Q->ngetters == 0 && Q->nputters == 0 && cs_maxlen(&M->cs) < M->cap && ++guard < QMAX) {
+		while (!m_dead(M) && Q->ngetters == 0 && Q->nputters == 0 && cs_maxlen(&M->cs) < M->cap && cs_maxlen(&M->cs) < QMAX - 8 && ++guard < QMAX) {
 			q_tryput(Q);
 		}
-		if (!m_dead(M) && Q->ngetters == 0 && Q->nputters == 0) {
+		if (!m_dead(M) && Q->ngetters == 0 && Q->nputters == 0 && cs_maxlen(&M->cs) >= M->cap) {
 			q_tryput(Q); // one too many: must be refused (checked inside)
 		}
 		q_drain(Q);
@@ -1049,6 +1200,7 @@ q_fini(qctx *Q, bool drain)
 	vf_stat("msgq_blocked_puts", Q->blocked_puts);
 	vf_stat("msgq_blocked_gets", Q->blocked_gets);
 	vf_stat("msgq_handoffs", Q->handoffs);
+	vf_stat("msgq_cancels", Q->cancels);
 	if (m_dead(M)) {
 		abandoned++;
 		return; // leak: the ring may be damaged
@@ -1086,6 +1238,9 @@ q_rotate(qctx *Q, int n)
 {
 	while (n > 0 && !m_dead(&Q->M)) {
 		int chunk = n < Q->M.cap ? n : Q->M.cap;
+		if (chunk > 16) {
+			chunk = 16;
+		}
 		if (chunk == 0) {
 			return;
 		}
@@ -1156,6 +1311,53 @@ run_msgq_exhaustive(void)
 }
 
 static void
+run_msgq_big(long base)
+{
+	long idx = base;
+	for (int ai = 0; ai < NBIG_A; ai++) {
+		int cap   = big_a[ai];
+		int alloc = cap + 2;
+		for (int oi = 0; oi < 3; oi++) {
+			int off = oi == 0 ? 0 : oi == 1 ? cap - 3 : alloc - 1;
+			for (int fi = 0; fi < 2; fi++) {
+				int fill = cap <= 64 ? cap - 1 + fi : 20 + 20 * fi;
+				for (int bi = 0; bi < NBIG_B; bi++) {
+					for (int ci = 0; ci < NBIG_C; ci++, idx++) {
+						if ((idx % vf_nshards) != vf_shard || !vf_want_case(idx)) {
+							continue;
+						}
+						qctx Q;
+						vf_case_begin(idx, "msgq big cap=%d off=%d fill=%d resize=%d get put put resize=%d", cap, off, fill, big_b[bi], big_c[ci]);
+						q_init(&Q, cap);
+						q_rotate(&Q, off);
+						for (int i = 0; i < fill; i++) {
+							q_tryput(&Q);
+						}
+						q_resize(&Q, big_b[bi]);
+						q_aget(&Q);
+						for (int i = 0; i < 2; i++) {
+							if (cs_maxlen(&Q.M.cs) < Q.M.cap || Q.ngetters) {
+								q_tryput(&Q);
+							} else {
+								q_aput(&Q);
+							}
+						}
+						q_resize(&Q, big_c[ci]);
+						if (!Q.M.dead) {
+							vf_class("msgq/big/cap%d->%d->%d/%s", cap, big_b[bi], big_c[ci], off + fill > alloc ? "wrapped" : "flat");
+							vf_stat("big_depth_cases", 1);
+						}
+						q_fini(&Q, true);
+						vf_stat("cases", 1);
+						vf_watchdog(120);
+					}
+				}
+			}
+		}
+	}
+}
+
+static void
 run_msgq_random(long base, long cases)
 {
 	vf_rng r;
@@ -1178,6 +1380,8 @@ run_msgq_random(long base, long cases)
 			}
 			if (x < 7) {
 				q_resize(&Q, pick_cap(&r));
+			} else if (x < 11) {
+				q_cancel(&Q, Q.nputters > 0, (int) vf_below(&r, NWAIT));
 			} else if (x < (bias == 1 ? 60u : bias == 2 ? 35u : 48u)) {
 				q_tryput(&Q);
 			} else if (x < (bias == 1 ? 70u : bias == 2 ? 42u : 56u)) {
@@ -1586,7 +1790,7 @@ a_feed(actx *A, bool inflight)
 			cs_evict_append(&M->cs, seq, M->cap);
 			vf_stat("api_legal_drops", 1);
 		} else {
-			reg[seq].st = 3; // must be dropped by the lossy protocol (queue full)
+			reg[seq].st[0] = 3; // must be dropped by the lossy protocol (queue full)
 			vf_stat("api_legal_drops", 1);
 		}
 	} else {
@@ -1604,7 +1808,7 @@ a_feed(actx *A, bool inflight)
 			}
 			m_accept(M, seq);
 		} else {
-			reg[seq].st = 2;
+			reg[seq].st[0] = 2;
 			if (!full && cs_filter_len(&M->cs, M->cap, QMAX) == 0) {
 				m_viol(M, "capacity/send-refused-with-room", "send refused with %d of %d buffered", cs_maxlen(&M->cs), M->cap);
 			}
@@ -1748,11 +1952,11 @@ api_accepted(long idx, const kind *k, int ds, int dr, bool with_peer, bool set_d
 		uint32_t seq;
 		nng_msg *m = a_mk(&A, &seq, false, 0);
 		if (!a_send(&A, A.q, m, true, k->msgq)) {
-			reg[seq].st = 2;
+			reg[seq].st[0] = 2;
 			// settled? give the pipeline one more chance
 			m = a_mk(&A, &seq, false, 0);
 			if (!a_send(&A, A.q, m, true, k->msgq)) {
-				reg[seq].st = 2;
+				reg[seq].st[0] = 2;
 				break;
 			}
 		}
@@ -1817,6 +2021,54 @@ api_capacity_case(long idx, const kind *k, bool with_peer, bool peer_recvbuf)
 		}
 	}
 	vf_sample("{\"capacity\":\"%s\",\"idle_peer\":%d,\"accepted_at_depth_0\":%d,\"accepted\":{%s}}", k->name, with_peer, base, counts);
+	vf_stat("cases", 1);
+}
+
+// the documented option range (0 or 1 .. 8192) and the depths around the
+// powers of two the rings are rounded to, with messages held
+static const int range_bad[] = { -1, 8193, -8192, 0x7fffffff };
+static const int range_seq[] = { 8192, 1000, 33, 32, 31, 64, 8192, 2 };
+
+static void
+api_range_case(long idx, const kind *k)
+{
+	actx A;
+	vf_case_begin(idx, "api range %s", k->name);
+	a_open(&A, k, 5, k->recv_side);
+	model *M = &A.M;
+	for (int i = 0; i < 4; i++) {
+		a_feed(&A, false);
+	}
+	for (unsigned i = 0; i <= sizeof(range_bad) / sizeof(range_bad[0]) && !m_dead(M); i++) {
+		int v = i < sizeof(range_bad) / sizeof(range_bad[0]) ? range_bad[i] : k->mincap - 1;
+		int rv = nng_socket_set_int(A.q, k->opt, v), got = -1;
+		(void) nng_socket_get_int(A.q, k->opt, &got);
+		m_log(M, "set(%d)=%d", v, rv);
+		if (m_dead(M)) {
+			break;
+		}
+		if (rv == 0 || got != 5) {
+			m_viol(M, "range/accepted", "setting depth %d returned %d and the option now reads %d", v, rv, got);
+		}
+	}
+	for (unsigned i = 0; i < sizeof(range_seq) / sizeof(range_seq[0]); i++) {
+		a_resize(&A, range_seq[i]);
+		a_feed(&A, false);
+		if (i & 1) {
+			a_feed(&A, false);
+		}
+	}
+	if (k->recv_side) {
+		a_drain(&A, A.q, A.peer);
+	} else if (!m_dead(M)) {
+		a_attach_peer(&A);
+		a_drain(&A, A.peer, A.q);
+	}
+	if (!m_dead(M)) {
+		vf_class("api/range/%s", k->name);
+		vf_stat("api_range_cases", 1);
+	}
+	a_close(&A);
 	vf_stat("cases", 1);
 }
 
@@ -1910,6 +2162,15 @@ run_api(void)
 			vf_watchdog(120);
 		}
 	}
+	// (2b) option range and large depths
+	idx = 1500000;
+	for (int ki = 0; ki < NKINDS; ki++, idx++) {
+		if ((idx % vf_nshards) != vf_shard || !vf_want_case(idx)) {
+			continue;
+		}
+		api_range_case(idx, &kinds[ki]);
+		vf_watchdog(120);
+	}
 	// (3) random histories on receive queues
 	idx = 2000000;
 	vf_rng r;
@@ -1927,6 +2188,824 @@ run_api(void)
 	}
 }
 
+static uint32_t
+be32h(const uint8_t *p)
+{
+	return ((uint32_t) p[0] << 24) | ((uint32_t) p[1] << 16) | ((uint32_t) p[2] << 8) | p[3];
+}
+
+// ==================================================================
+// fan mode: queues that sit behind a pipe, and queues per receiver
+// ==================================================================
+// A "stalling" peer protocol (white-box, registered with nni_proto_open):
+// it identifies as SUB / BUS / PULL / PAIR0 / PAIR1 / REP but its pipe only
+// receives when the harness asks for one message.  With it the per-pipe send
+// queues of PUB and BUS, and the send buffers of PAIR/PUSH/raw REQ *behind a
+// pipe that holds an in-flight message*, can be filled, resized and drained
+// deterministically.
+typedef struct stall_pipe stall_pipe;
+typedef struct stall_sock {
+	nni_mtx     mtx;
+	stall_pipe *pipe;
+	nni_aio    *uaio; // the harness's pending receive
+	size_t      hdr;  // protocol header bytes in front of the body
+} stall_sock;
+struct stall_pipe {
+	nni_pipe   *pipe;
+	stall_sock *s;
+	nni_aio     aio_recv;
+	bool        pending;
+};
+
+static void
+stall_sock_init(void *arg, nni_sock *sock)
+{
+	stall_sock *s = arg;
+	uint16_t    id = nni_sock_proto_id(sock);
+	nni_mtx_init(&s->mtx);
+	s->pipe = NULL;
+	s->uaio = NULL;
+	s->hdr  = (id == NNI_PROTO(1, 1) || id == NNI_PROTO(3, 1)) ? 4 : 0;
+}
+
+static void
+stall_sock_fini(void *arg)
+{
+	stall_sock *s = arg;
+	nni_mtx_fini(&s->mtx);
+}
+
+static void
+stall_sock_open(void *arg)
+{
+	NNI_ARG_UNUSED(arg);
+}
+
+static void
+stall_sock_close(void *arg)
+{
+	stall_sock *s = arg;
+	nni_aio    *a;
+	nni_mtx_lock(&s->mtx);
+	if ((a = s->uaio) != NULL) {
+		s->uaio = NULL;
+		nni_aio_finish_error(a, NNG_ECLOSED);
+	}
+	nni_mtx_unlock(&s->mtx);
+}
+
+static void
+stall_recv_cb(void *arg)
+{
+	stall_pipe *p = arg;
+	stall_sock *s = p->s;
+	nni_aio    *u;
+	nni_msg    *m;
+	if (nni_aio_result(&p->aio_recv) != 0) {
+		nni_mtx_lock(&s->mtx);
+		p->pending = false;
+		nni_mtx_unlock(&s->mtx);
+		nni_pipe_close(p->pipe);
+		return;
+	}
+	m = nni_aio_get_msg(&p->aio_recv);
+	nni_aio_set_msg(&p->aio_recv, NULL);
+	if (s->hdr != 0 && nni_msg_len(m) >= s->hdr) {
+		nni_msg_header_append(m, nni_msg_body(m), s->hdr);
+		nni_msg_trim(m, s->hdr);
+	}
+	nni_mtx_lock(&s->mtx);
+	p->pending = false;
+	u          = s->uaio;
+	s->uaio    = NULL;
+	nni_mtx_unlock(&s->mtx);
+	if (u != NULL) {
+		nni_aio_finish_msg(u, m);
+	} else {
+		nni_msg_free(m); // the harness gave up on this receive
+	}
+}
+
+static void
+stall_cancel(nni_aio *aio, void *arg, nng_err rv)
+{
+	stall_sock *s = arg;
+	nni_mtx_lock(&s->mtx);
+	if (s->uaio == aio) {
+		s->uaio = NULL;
+		nni_aio_finish_error(aio, rv);
+	}
+	nni_mtx_unlock(&s->mtx);
+}
+
+static void
+stall_sock_recv(void *arg, nni_aio *aio)
+{
+	stall_sock *s = arg;
+	nni_mtx_lock(&s->mtx);
+	if (!nni_aio_start(aio, stall_cancel, s)) {
+		nni_mtx_unlock(&s->mtx);
+		return;
+	}
+	if (s->uaio != NULL) {
+		nni_aio_finish_error(aio, NNG_ESTATE);
+		nni_mtx_unlock(&s->mtx);
+		return;
+	}
+	s->uaio = aio;
+	if (s->pipe != NULL && !s->pipe->pending) {
+		s->pipe->pending = true;
+		nni_pipe_recv(s->pipe->pipe, &s->pipe->aio_recv);
+	}
+	nni_mtx_unlock(&s->mtx);
+}
+
+static void
+stall_sock_send(void *arg, nni_aio *aio)
+{
+	NNI_ARG_UNUSED(arg);
+	nni_aio_finish_error(aio, NNG_ENOTSUP);
+}
+
+static int
+stall_pipe_init(void *arg, nni_pipe *pipe, void *s)
+{
+	stall_pipe *p = arg;
+	nni_aio_init(&p->aio_recv, stall_recv_cb, p);
+	p->pipe    = pipe;
+	p->s       = s;
+	p->pending = false;
+	return (0);
+}
+
+static void
+stall_pipe_fini(void *arg)
+{
+	stall_pipe *p = arg;
+	nni_aio_fini(&p->aio_recv);
+}
+
+static int
+stall_pipe_start(void *arg)
+{
+	stall_pipe *p = arg;
+	stall_sock *s = p->s;
+	nni_mtx_lock(&s->mtx);
+	if (s->pipe != NULL) {
+		nni_mtx_unlock(&s->mtx);
+		return (NNG_EBUSY);
+	}
+	s->pipe = p;
+	if (s->uaio != NULL && !p->pending) {
+		p->pending = true;
+		nni_pipe_recv(p->pipe, &p->aio_recv);
+	}
+	nni_mtx_unlock(&s->mtx);
+	return (0);
+}
+
+static void
+stall_pipe_close(void *arg)
+{
+	stall_pipe *p = arg;
+	stall_sock *s = p->s;
+	nni_aio_close(&p->aio_recv);
+	nni_mtx_lock(&s->mtx);
+	if (s->pipe == p) {
+		s->pipe = NULL;
+	}
+	nni_mtx_unlock(&s->mtx);
+}
+
+static void
+stall_pipe_stop(void *arg)
+{
+	stall_pipe *p = arg;
+	nni_aio_stop(&p->aio_recv);
+}
+
+static nni_option stall_options[] = { { .o_name = NULL } };
+
+static nni_proto_pipe_ops stall_pipe_ops = {
+	.pipe_size  = sizeof(stall_pipe),
+	.pipe_init  = stall_pipe_init,
+	.pipe_fini  = stall_pipe_fini,
+	.pipe_start = stall_pipe_start,
+	.pipe_close = stall_pipe_close,
+	.pipe_stop  = stall_pipe_stop,
+};
+static nni_proto_sock_ops stall_sock_ops = {
+	.sock_size    = sizeof(stall_sock),
+	.sock_init    = stall_sock_init,
+	.sock_fini    = stall_sock_fini,
+	.sock_open    = stall_sock_open,
+	.sock_close   = stall_sock_close,
+	.sock_send    = stall_sock_send,
+	.sock_recv    = stall_sock_recv,
+	.sock_options = stall_options,
+};
+#define STALL_PROTO(var, self, sname, peer, pname)                    \
+	static nni_proto var = {                                       \
+		.proto_self     = { self, sname },                     \
+		.proto_peer     = { peer, pname },                     \
+		.proto_flags    = NNI_PROTO_FLAG_RCV | NNI_PROTO_FLAG_RAW, \
+		.proto_sock_ops = &stall_sock_ops,                     \
+		.proto_pipe_ops = &stall_pipe_ops,                     \
+	};                                                             \
+	static int var##_open(nng_socket *s)                           \
+	{                                                              \
+		return (nni_proto_open(s, &var));                      \
+	}
+STALL_PROTO(stall_sub, NNI_PROTO(2, 1), "sub", NNI_PROTO(2, 0), "pub")
+STALL_PROTO(stall_bus, NNI_PROTO(7, 0), "bus", NNI_PROTO(7, 0), "bus")
+STALL_PROTO(stall_pull, NNI_PROTO(5, 1), "pull", NNI_PROTO(5, 0), "push")
+STALL_PROTO(stall_pair0, NNI_PROTO(1, 0), "pair", NNI_PROTO(1, 0), "pair")
+STALL_PROTO(stall_pair1, NNI_PROTO(1, 1), "pair1", NNI_PROTO(1, 1), "pair1")
+STALL_PROTO(stall_rep, NNI_PROTO(3, 1), "rep", NNI_PROTO(3, 0), "req")
+
+enum { POL_REFUSE = 0, POL_DROP_NEW = 1, POL_EVICT_OLD = 2 };
+
+typedef struct {
+	const char *name;
+	int (*open_q)(nng_socket *);
+	int (*open_peer)(nng_socket *); // stalling peer, or the publisher for contexts
+	const char *opt;
+	int         nlanes;
+	int         skip; // cells in front of the queue (the pipe's send slot)
+	bool        msgq;
+	int         pol[2];
+	int         mincap;
+	bool        reqhdr;
+	bool        ctx; // lanes are contexts of q with their own RECVBUF
+} fkind;
+
+static const fkind fkinds[] = {
+	{ "pub.sendbuf", nng_pub0_open, stall_sub_open, NNG_OPT_SENDBUF, 2, 1, false, { POL_EVICT_OLD, POL_EVICT_OLD }, 1, false, false },
+	{ "bus.sendbuf", nng_bus0_open, stall_bus_open, NNG_OPT_SENDBUF, 2, 1, false, { POL_DROP_NEW, POL_DROP_NEW }, 1, false, false },
+	{ "sub-ctx.recvbuf", nng_sub0_open, nng_pub0_open, NNG_OPT_RECVBUF, 2, 0, false, { POL_EVICT_OLD, POL_DROP_NEW }, 1, false, true },
+	{ "pair0.sendbuf+pipe", nng_pair0_open, stall_pair0_open, NNG_OPT_SENDBUF, 1, 1, false, { POL_REFUSE, POL_REFUSE }, 0, false, false },
+	{ "pair1.sendbuf+pipe", nng_pair1_open, stall_pair1_open, NNG_OPT_SENDBUF, 1, 1, false, { POL_REFUSE, POL_REFUSE }, 0, false, false },
+	{ "push.sendbuf+pipe", nng_push0_open, stall_pull_open, NNG_OPT_SENDBUF, 1, 1, false, { POL_REFUSE, POL_REFUSE }, 0, false, false },
+	{ "xreq.sendbuf+pipe", nng_req0_open_raw, stall_rep_open, NNG_OPT_SENDBUF, 1, 1, true, { POL_REFUSE, POL_REFUSE }, 0, true, false },
+};
+#define NFKINDS ((int) (sizeof(fkinds) / sizeof(fkinds[0])))
+
+typedef struct {
+	const fkind *k;
+	nng_socket   q;
+	nng_socket   peer[2];
+	int          npeers;
+	nng_ctx      ctx[2];
+	nng_aio     *raio[2];
+	bool         rpending[2];
+	nng_aio     *saio;
+	model        M[2];
+	char         url[96];
+	_Atomic int  q_pipes;
+	long         msgs, pulls;
+} fctx;
+
+static void
+f_pipe_cb(nng_pipe p, nng_pipe_ev ev, void *arg)
+{
+	fctx *F = arg;
+	(void) p;
+	atomic_fetch_add(&F->q_pipes, ev == NNG_PIPE_EV_ADD_POST ? 1 : -1);
+}
+
+static bool
+f_dead(fctx *F)
+{
+	bool d = false;
+	for (int l = 0; l < F->k->nlanes; l++) {
+		d = m_dead(&F->M[l]) || d;
+	}
+	if (d) {
+		for (int l = 0; l < F->k->nlanes; l++) {
+			F->M[l].dead = true;
+		}
+	}
+	return d;
+}
+
+static void
+f_attach(fctx *F)
+{
+	int rv, i = F->npeers;
+	if ((rv = F->k->open_peer(&F->peer[i])) != 0) {
+		vf_harness_fail("open peer: %s", nng_strerror(rv));
+	}
+	nng_socket_set_ms(F->peer[i], NNG_OPT_SENDTIMEO, 10000);
+	if ((rv = nng_dial(F->peer[i], F->url, NULL, 0)) != 0) {
+		vf_harness_fail("dial: %s", nng_strerror(rv));
+	}
+	F->npeers++;
+	wait_count(&F->q_pipes, F->npeers, "pipe on the socket under test");
+	quiesce();
+}
+
+static void
+f_setopt(fctx *F, int lane, int cap)
+{
+	int rv, got = -1;
+	if (F->k->ctx) {
+		rv = nng_ctx_set_int(F->ctx[lane], F->k->opt, cap);
+		if (rv == 0) {
+			rv = nng_ctx_get_int(F->ctx[lane], F->k->opt, &got);
+		}
+		m_log(&F->M[lane], "cap(%d)", cap);
+	} else {
+		rv = nng_socket_set_int(F->q, F->k->opt, cap);
+		if (rv == 0) {
+			rv = nng_socket_get_int(F->q, F->k->opt, &got);
+		}
+		for (int l = 0; l < F->k->nlanes; l++) {
+			m_log(&F->M[l], "cap(%d)", cap);
+		}
+	}
+	if (f_dead(F)) {
+		return;
+	}
+	if (rv != 0) {
+		vf_harness_fail("%s set %s=%d: %s", F->k->name, F->k->opt, cap, nng_strerror(rv));
+	}
+	if (got != cap) {
+		m_viol(&F->M[lane], "cap-not-set", "option reads back %d after setting %d", got, cap);
+	}
+}
+
+// order: 0 option set before any pipe exists, 1 after the first pipe was
+// attached (the second pipe then starts with the socket's current depth)
+static void
+f_open(fctx *F, const fkind *k, int cap, int order)
+{
+	int rv;
+	memset(F, 0, sizeof(*F));
+	F->k = k;
+	reg_reset();
+	for (int l = 0; l < k->nlanes; l++) {
+		char mk[48];
+		snprintf(mk, sizeof(mk), "api/%s", k->name);
+		m_init(&F->M[l], mk, cap, k->msgq ? 1 : 0, false);
+		F->M[l].lane = l;
+		if (nng_aio_alloc(&F->raio[l], NULL, NULL) != 0) {
+			vf_harness_fail("nng_aio_alloc");
+		}
+		nng_aio_set_timeout(F->raio[l], NNG_DURATION_INFINITE);
+	}
+	if (nng_aio_alloc(&F->saio, NULL, NULL) != 0) {
+		vf_harness_fail("nng_aio_alloc");
+	}
+	nng_aio_set_timeout(F->saio, NNG_DURATION_INFINITE);
+	if ((rv = k->open_q(&F->q)) != 0) {
+		vf_harness_fail("open %s: %s", k->name, nng_strerror(rv));
+	}
+	nng_pipe_notify(F->q, NNG_PIPE_EV_ADD_POST, f_pipe_cb, F);
+	nng_pipe_notify(F->q, NNG_PIPE_EV_REM_POST, f_pipe_cb, F);
+	nng_socket_set_ms(F->q, NNG_OPT_SENDTIMEO, 10000);
+	vf_url(VF_T_INPROC, F->url, sizeof(F->url));
+	if ((rv = nng_listen(F->q, F->url, NULL, 0)) != 0) {
+		vf_harness_fail("listen: %s", nng_strerror(rv));
+	}
+	if (k->ctx) {
+		for (int l = 0; l < 2; l++) {
+			if ((rv = nng_ctx_open(&F->ctx[l], F->q)) != 0 ||
+			    (rv = nng_sub0_ctx_subscribe(F->ctx[l], "", 0)) != 0) {
+				vf_harness_fail("ctx: %s", nng_strerror(rv));
+			}
+			if (k->pol[l] == POL_DROP_NEW && (rv = nng_ctx_set_bool(F->ctx[l], NNG_OPT_SUB_PREFNEW, false)) != 0) {
+				vf_harness_fail("ctx prefnew: %s", nng_strerror(rv));
+			}
+			f_setopt(F, l, cap);
+		}
+		f_attach(F); // the publisher
+		return;
+	}
+	if (order == 0) {
+		f_setopt(F, 0, cap);
+	}
+	f_attach(F);
+	if (order != 0) {
+		f_setopt(F, 0, cap);
+	}
+	if (k->nlanes > 1) {
+		f_attach(F);
+	}
+}
+
+static void
+f_close(fctx *F)
+{
+	vf_stat("api_msgs", F->msgs);
+	vf_stat("fan_pulls", F->pulls);
+	if (f_dead(F)) {
+		abandoned++;
+		return;
+	}
+	nng_msg *m;
+	for (int l = 0; l < F->k->nlanes; l++) {
+		nng_aio_stop(F->raio[l]);
+		if (nng_aio_result(F->raio[l]) == 0 && (m = nng_aio_get_msg(F->raio[l])) != NULL) {
+			nng_msg_free(m);
+		}
+	}
+	nng_aio_stop(F->saio);
+	if ((m = nng_aio_get_msg(F->saio)) != NULL && nng_aio_result(F->saio) != 0) {
+		nng_msg_free(m);
+	}
+	for (int i = 0; i < F->npeers; i++) {
+		nng_socket_close(F->peer[i]);
+	}
+	nng_socket_close(F->q);
+	for (int l = 0; l < F->k->nlanes; l++) {
+		nng_aio_free(F->raio[l]);
+	}
+	nng_aio_free(F->saio);
+}
+
+// completions of receives that were left waiting
+static void
+f_settle(fctx *F)
+{
+	for (int l = 0; l < F->k->nlanes; l++) {
+		model *M = &F->M[l];
+		if (!F->rpending[l] || nng_aio_busy(F->raio[l]) || M->dead) {
+			continue;
+		}
+		F->rpending[l] = false;
+		int rv         = nng_aio_result(F->raio[l]);
+		if (rv != 0) {
+			m_viol(M, "recv-failed", "receive failed: %s", nng_strerror(rv));
+			continue;
+		}
+		nng_msg *m = nng_aio_get_msg(F->raio[l]);
+		nng_aio_set_msg(F->raio[l], NULL);
+		uint32_t x = 0;
+		(void) chk_msg(m, &x);
+		if (F->k->reqhdr && (nng_msg_header_len(m) != 4 || be32h(nng_msg_header(m)) != (0x80000000u | x))) {
+			m_viol(M, "corrupt/header", "message %u arrived with a damaged protocol header", x);
+			continue;
+		}
+		m_log(M, "recv:%u", x);
+		F->pulls++;
+		m_recv(M, m);
+	}
+}
+
+// one message from the sending side; every lane's model is told
+static void
+f_send(fctx *F)
+{
+	const fkind *k = F->k;
+	uint32_t     seq;
+	if (f_dead(F)) {
+		return;
+	}
+	nng_msg *m = mk_msg(&seq);
+	if (k->reqhdr) {
+		nng_msg_header_append_u32(m, 0x80000000u | seq);
+	}
+	F->msgs++;
+	nng_socket from     = k->ctx ? F->peer[0] : F->q;
+	bool       accepted = true;
+	int        rv;
+	if (k->pol[0] != POL_REFUSE || k->ctx) {
+		if ((rv = nng_sendmsg(from, m, 0)) != 0) {
+			nng_msg_free(m);
+			m_viol(&F->M[0], "send-failed", "send failed: %s", nng_strerror(rv));
+			return;
+		}
+	} else if (!k->msgq) {
+		rv = nng_sendmsg(from, m, NNG_FLAG_NONBLOCK);
+		if (rv == NNG_EAGAIN) {
+			nng_msg_free(m);
+			accepted = false;
+		} else if (rv != 0) {
+			nng_msg_free(m);
+			m_viol(&F->M[0], "send-failed", "send failed: %s", nng_strerror(rv));
+			return;
+		}
+	} else {
+		nng_aio_set_msg(F->saio, m);
+		nng_socket_send(from, F->saio);
+		quiesce();
+		if (nng_aio_busy(F->saio)) {
+			nng_aio_cancel(F->saio);
+			nng_aio_wait(F->saio);
+		}
+		if (nng_aio_result(F->saio) != 0) {
+			nng_msg_free(nng_aio_get_msg(F->saio));
+			nng_aio_set_msg(F->saio, NULL);
+			accepted = false;
+		}
+	}
+	quiesce();
+	for (int l = 0; l < k->nlanes; l++) {
+		model *M = &F->M[l];
+		m_log(M, "send%u=%d", seq, accepted);
+		if (M->dead) {
+			continue;
+		}
+		// a receive left waiting takes the message directly
+		int  skip     = F->rpending[l] ? 0 : k->skip;
+		int  minlen   = cs_minlen(&M->cs), maxlen = cs_maxlen(&M->cs);
+		bool all_full = F->rpending[l] ? false : (minlen >= skip && minlen - skip >= M->cap);
+		if (F->rpending[l]) {
+			if (!accepted) {
+				m_viol(M, "capacity/send-refused-with-reader", "send refused although the peer is waiting for a message");
+				continue;
+			}
+			cs_append(&M->cs, seq);
+		} else if (cs_offer(&M->cs, seq, M->cap, skip, k->pol[l], accepted) == 0) {
+			if (accepted) {
+				m_viol(M, "bound/send-accepted-when-full", "send accepted with %d queued behind the pipe, depth %d", minlen - skip, M->cap);
+			} else {
+				m_viol(M, "capacity/send-refused-with-room", "send refused with %d queued behind the pipe, depth %d", maxlen > skip ? maxlen - skip : 0, M->cap);
+			}
+			continue;
+		}
+		if (!accepted) {
+			reg[seq].st[l] = 2;
+		} else if (k->pol[l] == POL_DROP_NEW && all_full) {
+			reg[seq].st[l] = 3;
+			vf_stat("api_legal_drops", 1);
+		} else if (k->pol[l] == POL_EVICT_OLD && all_full) {
+			vf_stat("api_legal_drops", 1);
+		}
+	}
+	f_settle(F);
+}
+
+// ask lane l for one message; false if nothing is to be had (the receive
+// stays posted)
+static bool
+f_pull(fctx *F, int l)
+{
+	model *M = &F->M[l];
+	if (f_dead(F)) {
+		return false;
+	}
+	if (F->rpending[l]) {
+		return false;
+	}
+	if (F->k->ctx) {
+		nng_ctx_recv(F->ctx[l], F->raio[l]);
+	} else {
+		nng_socket_recv(F->peer[l], F->raio[l]);
+	}
+	F->rpending[l] = true;
+	quiesce();
+	f_settle(F);
+	if (f_dead(F)) {
+		return false;
+	}
+	if (F->rpending[l]) {
+		m_log(M, "dry");
+		m_empty(M, "receive blocks at quiescence");
+		return false;
+	}
+	return true;
+}
+
+static void
+f_resize(fctx *F, int lane, int newcap)
+{
+	if (f_dead(F)) {
+		return;
+	}
+	int l0 = F->k->ctx ? lane : 0, l1 = F->k->ctx ? lane : F->k->nlanes - 1;
+	int before = 0;
+	for (int l = l0; l <= l1; l++) {
+		int n = cs_maxlen(&F->M[l].cs) - F->k->skip;
+		before = n > before ? n : before;
+	}
+	f_setopt(F, lane, newcap);
+	if (f_dead(F)) {
+		return;
+	}
+	for (int l = l0; l <= l1; l++) {
+		model *M = &F->M[l];
+		int    n = cs_maxlen(&M->cs) - F->k->skip;
+		if (n > newcap) {
+			M->resized = true;
+		}
+		cs_resize_skip(&M->cs, newcap, M->slot, F->k->skip);
+		M->cap = newcap;
+	}
+	if (before > newcap) {
+		vf_stat("lossy_resizes", 1);
+	}
+	quiesce();
+	f_settle(F);
+}
+
+// drain every lane, then one more message must reach every waiting receive
+static void
+f_drain(fctx *F, int first)
+{
+	int nl = F->k->nlanes;
+	for (int i = 0; i < nl; i++) {
+		int l = (first + i) % nl;
+		int guard = 0;
+		while (f_pull(F, l) && ++guard < 3 * QMAX) {
+		}
+		if (guard >= 3 * QMAX && !f_dead(F)) {
+			m_viol(&F->M[l], "phantom", "queue never runs dry");
+		}
+	}
+	if (f_dead(F)) {
+		return;
+	}
+	f_send(F);
+	for (int l = 0; l < nl && !f_dead(F); l++) {
+		if (F->rpending[l]) {
+			// generous bounded-progress wait before believing it
+			uint64_t end = vf_now_ns() + 10000000000ULL;
+			while (nng_aio_busy(F->raio[l]) && vf_now_ns() < end) {
+				vf_usleep(100);
+			}
+			f_settle(F);
+			if (F->rpending[l] && !f_dead(F)) {
+				m_viol(&F->M[l], "lost/sentinel", "a message sent while this receiver was waiting never reached it");
+			}
+		}
+	}
+}
+
+static void
+fan_resize_case(long idx, const fkind *k, int cap, int off, int fill, int nc, int order)
+{
+	fctx F;
+	vf_case_begin(idx, "fan %s cap=%d off=%d fill=%d resize=%d order=%d", k->name, cap, off, fill, nc, order);
+	f_open(&F, k, cap, order);
+	// one message into the pipe's send slot, then rotate the ring
+	if (k->skip && (off > 0 || fill > 0)) {
+		f_send(&F);
+	}
+	for (int i = 0; i < off && cap > 0; i++) {
+		f_send(&F);
+		for (int l = 0; l < k->nlanes; l++) {
+			f_pull(&F, l);
+		}
+	}
+	for (int i = 0; i < fill; i++) {
+		f_send(&F); // the last of cap+1 meets a full queue
+	}
+	if (k->ctx) {
+		f_resize(&F, 0, nc);
+		f_resize(&F, 1, (nc + 2) % 7 + 1); // the other context gets another depth
+	} else {
+		f_resize(&F, 0, nc);
+	}
+	f_drain(&F, (int) (idx & 1));
+	// the resized queues: fill beyond their depth, look at what is kept
+	int more = F.M[0].cap > F.M[k->nlanes - 1].cap ? F.M[0].cap : F.M[k->nlanes - 1].cap;
+	for (int i = 0; i < more + 3; i++) {
+		f_send(&F);
+	}
+	f_drain(&F, (int) ((idx >> 1) & 1));
+	if (!f_dead(&F)) {
+		vf_class("fan/%s/cap%d->%d/%s%s/order%d", k->name, cap, nc, fill == 0 ? "empty" : fill == cap ? "full" : fill > cap ? "full+1" : "part", off ? "-rotated" : "", order);
+		vf_stat("fan_resize_cases", 1);
+		if (k->nlanes > 1) {
+			vf_stat(k->ctx ? "fan_ctx_cases" : "fan_two_pipe_cases", 1);
+		} else {
+			vf_stat("fan_sendbuf_behind_pipe_cases", 1);
+		}
+	}
+	if ((idx % 173) == 0) {
+		vf_sample("{\"socket\":\"%s\",\"depth\":%d,\"ring_offset\":%d,\"queued\":%d,\"new_depth\":%d,\"set_after_first_pipe\":%d,\"lane0\":\"%s\"}", k->name, cap, off, fill, nc, order, F.M[0].hist);
+	}
+	f_close(&F);
+	vf_stat("cases", 1);
+}
+
+static void
+fan_range_case(long idx, const fkind *k)
+{
+	fctx F;
+	vf_case_begin(idx, "fan range %s", k->name);
+	f_open(&F, k, 5, 0);
+	for (int i = 0; i < 4; i++) {
+		f_send(&F);
+	}
+	for (unsigned i = 0; i <= sizeof(range_bad) / sizeof(range_bad[0]) && !f_dead(&F); i++) {
+		int v = i < sizeof(range_bad) / sizeof(range_bad[0]) ? range_bad[i] : k->mincap - 1;
+		int rv, got = -1;
+		if (k->ctx) {
+			rv = nng_ctx_set_int(F.ctx[0], k->opt, v);
+			(void) nng_ctx_get_int(F.ctx[0], k->opt, &got);
+		} else {
+			rv = nng_socket_set_int(F.q, k->opt, v);
+			(void) nng_socket_get_int(F.q, k->opt, &got);
+		}
+		m_log(&F.M[0], "set(%d)=%d", v, rv);
+		if (f_dead(&F)) {
+			break;
+		}
+		if (rv == 0 || got != 5) {
+			m_viol(&F.M[0], "range/accepted", "setting depth %d returned %d and the option now reads %d", v, rv, got);
+		}
+	}
+	for (unsigned i = 0; i < sizeof(range_seq) / sizeof(range_seq[0]); i++) {
+		f_resize(&F, 0, range_seq[i]);
+		if (k->ctx) {
+			f_resize(&F, 1, range_seq[(i + 3) % (sizeof(range_seq) / sizeof(range_seq[0]))]);
+		}
+		f_send(&F);
+		if (i & 1) {
+			f_send(&F);
+		}
+	}
+	f_drain(&F, 0);
+	if (!f_dead(&F)) {
+		vf_class("fan/range/%s", k->name);
+		vf_stat("api_range_cases", 1);
+	}
+	f_close(&F);
+	vf_stat("cases", 1);
+}
+
+static void
+fan_random_case(long idx, const fkind *k, vf_rng *r)
+{
+	fctx F;
+	int  cap  = (int) vf_range(r, (uint32_t) k->mincap, 10);
+	int  nops = (int) vf_range(r, 20, 70);
+	vf_case_begin(idx, "fan random %s cap=%d ops=%d", k->name, cap, nops);
+	f_open(&F, k, cap, (int) vf_below(r, 2));
+	for (int i = 0; i < nops && !f_dead(&F); i++) {
+		uint32_t x = vf_below(r, 100);
+		if (nextseq > MAXSEQ - 64) {
+			break;
+		}
+		if (x < 12) {
+			f_resize(&F, (int) vf_below(r, (uint32_t) k->nlanes), (int) vf_range(r, (uint32_t) k->mincap, 10));
+		} else if (x < 62) {
+			f_send(&F);
+		} else {
+			f_pull(&F, (int) vf_below(r, (uint32_t) k->nlanes));
+		}
+	}
+	f_drain(&F, (int) vf_below(r, 2));
+	if (!f_dead(&F)) {
+		vf_class("fan/random/%s/%s", k->name, (F.M[0].resized || F.M[k->nlanes - 1].resized) ? "lossy" : "lossless");
+		vf_stat("fan_random_cases", 1);
+	}
+	if ((idx % 41) == 0) {
+		vf_sample("{\"socket\":\"%s\",\"random_ops\":%d,\"lane0_tail\":\"%s\"}", k->name, nops, F.M[0].hist);
+	}
+	f_close(&F);
+	vf_stat("cases", 1);
+}
+
+static void
+run_fan(void)
+{
+	long idx    = 0;
+	int  maxcap = vf_tier ? 6 : 4;
+	for (int ki = 0; ki < NFKINDS; ki++) {
+		const fkind *k = &fkinds[ki];
+		for (int cap = k->mincap; cap <= maxcap; cap++) {
+			int slots = k->msgq ? cap + 2 : 2;
+			while (!k->msgq && slots < cap) {
+				slots *= 2;
+			}
+			for (int off = 0; off < (cap == 0 ? 1 : slots); off++) {
+				for (int fill = 0; fill <= cap + 1; fill++) {
+					for (int nc = k->mincap; nc <= maxcap + 1; nc++) {
+						for (int order = 0; order < (k->ctx ? 1 : 2); order++, idx++) {
+							if ((idx % vf_nshards) != vf_shard || !vf_want_case(idx)) {
+								continue;
+							}
+							fan_resize_case(idx, k, cap, off, fill, nc, order);
+							vf_watchdog(120);
+						}
+					}
+				}
+			}
+		}
+	}
+	idx = 1500000;
+	for (int ki = 0; ki < NFKINDS; ki++, idx++) {
+		if ((idx % vf_nshards) != vf_shard || !vf_want_case(idx)) {
+			continue;
+		}
+		fan_range_case(idx, &fkinds[ki]);
+		vf_watchdog(120);
+	}
+	idx = 2000000;
+	vf_rng r;
+	for (long c = 0; c < vf_cases; c++, idx++) {
+		if (!vf_want_case(idx)) {
+			continue;
+		}
+		vf_rng_seed(&r, vf_seed, (uint64_t) idx);
+		fan_random_case(idx, &fkinds[vf_below(&r, NFKINDS)], &r);
+		vf_watchdog(120);
+	}
+}
+
 int
 main(int argc, char **argv)
 {
@@ -1934,12 +3013,16 @@ main(int argc, char **argv)
 	vf_nng_init(2, 1, 1);
 	if (!strcmp(vf_mode, "lmq")) {
 		run_lmq_exhaustive();
+		run_lmq_big(20000000);
 		run_lmq_random(10000000, vf_cases);
 	} else if (!strcmp(vf_mode, "msgq")) {
 		run_msgq_exhaustive();
+		run_msgq_big(20000000);
 		run_msgq_random(10000000, vf_cases);
 	} else if (!strcmp(vf_mode, "api")) {
 		run_api();
+	} else if (!strcmp(vf_mode, "fan")) {
+		run_fan();
 	} else {
 		vf_harness_fail("unknown mode '%s'", vf_mode);
 	}
